@@ -21,7 +21,8 @@ PROP_FILES = ["Strengths/Props/C16.lean"]
 GEN_GROUPS = ["CoarsePy", "IndexPy", "Units"]
 RULE = ("grids w,h,d in 1..4 (1-D, 2-D, 3-D; size <= 36), 1..3 environments, cell edge h in {1/2,1,3/2,2,3} with V = h^3 given in a "
         "units system that may differ from the grid's; index maps: random environment-respecting partitions (non-contiguous groups, "
-        "singletons), block maps, identity, one group per environment, each with 0..several dropped cells of several environments; "
+        "singletons), block maps, identity, one group per environment, maps with more than 257 groups on 384..420-cell grids (group "
+        "indices computed at run time, groups of index >= 257 with internal faces), each with 0..several dropped cells of several environments; "
         "invalid stream: wrong length, missing index, entry < -1, all dropped, group mixing environments, non-int entries, periodic "
         "grid; states: integers / fractions / zeros given in the system's or in their own quantity unit, random 0/1 chemostat maps, "
         "1..3 species, random units systems; engine runs: identity map vs plain simulation (two species, chemostated entries) and "
@@ -217,10 +218,17 @@ def gen_case(rng, invalid=False, periodic=False):
     else:
         im, kind = gen_valid_map(rng, shape, envs)
     style = rng.random()
-    if style < 0.4:
+    if style < 0.25:
         state = [float(rng.randint(0, 20)) for _ in range(ns * n)]
-    elif style < 0.8:
+    elif style < 0.45:
         state = [float(Fraction(rng.randint(0, 400), 8)) for _ in range(ns * n)]
+    elif style < 0.6:
+        # molecule numbers beyond the float32 mantissa (and beyond a C int), odd so that any rounding shows
+        state = [float(2 ** rng.choice([24, 24, 25, 31, 32, 40]) + 1 + 2 * rng.randint(0, 50)) for _ in range(ns * n)]
+    elif style < 0.72:
+        state = [rng.randint(1, 10 ** 6) / 10 for _ in range(ns * n)]                       # decimal fractions (0.1, 12345.7 …)
+    elif style < 0.82:
+        state = [rng.random() * 10 ** rng.randint(0, 7) for _ in range(ns * n)]             # 15-17 significant digits
     else:
         state = [0.0 if rng.random() < 0.7 else float(rng.randint(1, 9)) for _ in range(ns * n)]
     cs = rng.random()
@@ -231,6 +239,25 @@ def gen_case(rng, invalid=False, periodic=False):
         per[rng.choice("xyz")] = "periodical"
     return dict(shape=shape, envs=envs, nenv=nenv, h=h, gsys=gsys, vsys=vsys, ssys=ssys, stsys=stsys, ns=ns, im=im, kind=kind, state=state, chem=chem,
                 periodic=per)
+
+
+def big_map_case(rng):
+    """a grid with more than 257 groups, group indices computed arithmetically (run-time integers, not literals): singletons
+    first, then pairs of x-neighbours, so that groups of index >= 257 have internal faces; a few dropped cells"""
+    shape = rng.choice([(20, 20, 1), (8, 8, 6), (10, 6, 7), (40, 10, 1)])
+    w, h, d = shape
+    n = w * h * d
+    nsingle = 2 * rng.randint(129, 140)                      # even, > 257: the pairs start on an even cell of a row of even width
+    envs = [(i // w) % 2 for i in range(n)]                  # environment by row: pairs never mix environments
+    im = [i if i < nsingle else nsingle + (i - nsingle) // 2 for i in range(n)]
+    for i in rng.sample(range(n), 3):
+        im[i] = -1
+    im = relabel(im)
+    im = [g + 0 for g in im]
+    usys = ("µm", "s", "molecule")
+    return dict(shape=shape, envs=envs, nenv=2, h=rng.choice(EDGES_H), gsys=usys, vsys=usys, ssys=usys, stsys=usys, ns=1, im=im,
+                kind="many-groups", state=[float(rng.randint(0, 9)) for _ in range(n)], chem=[1 if rng.random() < 0.1 else 0 for _ in range(n)],
+                periodic=None)
 
 
 def case_json(c):
@@ -348,11 +375,13 @@ def oracle_cg(ctx, c, got, case):
         tot_cg = sum(sv[s * ng + g] for g in range(ng))
         mag = sum(abs(frac(c["state"][s * n + i])) for i in range(n)) * si_qty(c.get("stsys", c["ssys"])[2])
         if not close(tot_cg, tot_fine, mag=mag, rel=1e-12):
-            ctx.violation(key0 + ":species-total", "species %d: coarse total %s, fine total over retained cells %s (SI)" % (s, fstr(tot_cg), fstr(tot_fine)),
+            ctx.violation(key0 + ":species-total", "species %d: coarse total %s, fine total over retained cells %s (SI; relative difference %s, amounts are summed exactly)" % (
+                              s, fstr(tot_cg), fstr(tot_fine), fstr(abs(tot_cg - tot_fine) / (mag or 1))),
                           case, impl=fstr(tot_cg), expected=fstr(tot_fine))
         for g in range(ng):
             if not close(sv[s * ng + g], bf["state"][s][g], mag=mag, rel=1e-12):
-                ctx.violation(key0 + ":group-amount", "species %d group %d holds %s, its members hold %s (SI)" % (s, g, fstr(sv[s * ng + g]), fstr(bf["state"][s][g])),
+                ctx.violation(key0 + ":group-amount", "species %d group %d holds %s, its members hold %s (SI; relative difference %s)" % (
+                                  s, g, fstr(sv[s * ng + g]), fstr(bf["state"][s][g]), fstr(abs(sv[s * ng + g] - bf["state"][s][g]) / (mag or 1))),
                               case, impl=fstr(sv[s * ng + g]), expected=fstr(bf["state"][s][g]))
                 break
         flags = [got["chem"][s * ng + g] for g in range(ng)]
@@ -361,7 +390,9 @@ def oracle_cg(ctx, c, got, case):
     # edges
     pairs = [(min(i, j), max(i, j)) for i, j, _, _ in got["edges"]]
     if any(i == j for i, j, _, _ in got["edges"]):
-        ctx.violation(key0 + ":self-loop", "coarse graph has a self-loop", case, impl=pairs)
+        loops = sorted(set(i for i, j, _, _ in got["edges"] if i == j))
+        ctx.violation(key0 + ":self-loop", "coarse graph of %d groups has self-loops on groups %s (first: surface %s, distance %s)" % (
+            ng, loops[:8], *[(str(a), str(b)) for i, j, a, b in got["edges"] if i == j][0]), case, impl=loops[:50])
     if len(set(pairs)) != len(pairs):
         ctx.violation(key0 + ":duplicate-edge", "coarse graph has duplicate edges", case, impl=pairs)
     if set(pairs) != set(bf["edges"]):
@@ -430,9 +461,13 @@ def uncg_case(ctx, rng, c, cgsys):
     N = rng.randint(1, 3)
     data = [float(Fraction(rng.randint(0, 240), rng.choice([1, 2, 4]))) for _ in range(N * ns * ng)]
     ts = [float(k) for k in range(N)]
-    traj = RDTrajectory(data=UnitArray(data, cgsys.state.units), t_sample=UnitArray(ts, "s"), system=cgsys)
+    # the coarse trajectory's data have their own quantity unit (a script's), in general not the unit of the system's state
+    dunit = rng.choice(QTY)
+    traj = RDTrajectory(data=UnitArray(data, dunit), t_sample=UnitArray(ts, "s"), system=cgsys)
     fine = build(c)
-    case = {"sys": case_json(c), "uncg": {"N": N, "data": data}}
+    case = {"sys": case_json(c), "uncg": {"N": N, "data": data, "unit": dunit}}
+    if dunit != cgsys.state.units.sys.quantity:
+        ctx.count("uncoarsegrain_data_unit_differs_from_state_unit")
     before = np.array(traj.data.value, dtype=float).tobytes()
     try:
         out = uncoarsegrain_trajectory(traj, fine, im)
@@ -480,7 +515,10 @@ def uncg_case(ctx, rng, c, cgsys):
     got_map = None if out.cgmap is None else list(out.cgmap)
     if str(out.data.units) != str(traj.data.units) or got_map != list(im) or out.system.space.size() != n \
             or [float(x) for x in out.t.value] != ts:
-        ctx.violation("uncg:wrapping", "un-coarse-grained trajectory does not carry the units / times / fine system / map", case,
+        ctx.violation("uncg:wrapping", "un-coarse-grained trajectory does not carry the coarse trajectory's units / times / the fine system / the map: "
+                      "data units %s (coarse trajectory: %s), map %s, %d cells, times %s" % (
+                          out.data.units, traj.data.units, "kept" if got_map == list(im) else "changed", out.system.space.size(),
+                          "kept" if [float(x) for x in out.t.value] == ts else "changed"), case,
                       impl={"units": str(out.data.units), "cgmap": got_map})
     op = {"op": "uncoarsegrain", "N": N, "ns": ns, "ncg": ng, "nf": n, "im": list(im), "cg": [rstr(v) for v in data]}
     # model fidelity outside the property's domain: maps the function itself does not validate (entries below -1 wrap like
@@ -526,6 +564,14 @@ def identity_runs(ctx, rng, count):
         envs = gen_envs(rng, n, nenv)
         nenv = max(envs) + 1
         DA = rng.choice([1, 2]) if diffuse else 0
+        # script units: the default, or (for the second Euler slot of the plan) a system in which a diffusion coefficient of
+        # about 1 µm2/s becomes a very small number (space m / km, time s / µs / h)
+        susys = None
+        if option == "euler" and policy == "on_t_sample" and k % len(plan) == len(plan) - 1:
+            susys = rng.choice([("m", "s"), ("km", "s"), ("m", "µs"), ("km", "h"), ("m", "ms")]) + (rng.choice(["molecule", "nmol", "mol"]),)
+            DA = rng.choice([1, 0.5, 0.25])
+        elif option == "euler" and policy == "on_t_sample":
+            susys = ("µm", "s", rng.choice(["nmol", "mol", "µmol", "pmol"]))      # only the quantity unit of the script differs
         species = [{"label": "A", "density": {("e%d" % e): rng.randint(5, 40) for e in range(nenv)}, "D": DA},
                    {"label": "B", "density": {("e%d" % e): rng.randint(0, 10) for e in range(nenv)},
                     "D": {("e%d" % e): (rng.choice([0, 1]) if diffuse else 0) for e in range(nenv)}}]
@@ -549,10 +595,11 @@ def identity_runs(ctx, rng, count):
             ts = [0.0, dt * rng.randint(2, 6)]
         seed = rng.randint(1, 10 ** 6)
         case = {"identity": {"system": d, "chem": chem, "option": option, "t_sample": ts, "seed": seed, "time_step": dt, "diffuse": diffuse,
-                             "policy": policy}}
+                             "policy": policy, "script_units": susys}}
+        ctx.count("identity_script_units_" + ("default" if susys is None else "_".join(susys)))
         ctx.count("identity_with_chemostats" if any(chem) else "identity_without_chemostats")
         ctx.count("identity_policy_" + policy)
-        ok, detail = identity_compare(system, option, ts, seed, dt, diffuse, policy)
+        ok, detail = identity_compare(system, option, ts, seed, dt, diffuse, policy, susys)
         ctx.case(("identity", option, diffuse, policy, shape, tuple(envs), seed), nontrivial=n > 1)
         ctx.count("identity_%s_%s" % (option, "diffusion" if diffuse else "reaction_only"))
         if not ok:
@@ -580,16 +627,22 @@ def unsafe_graph(system, im):
     return None
 
 
-def identity_compare(system, option, ts, seed, dt, diffuse, policy="on_t_sample"):
-    from strengths import simulate
+def identity_compare(system, option, ts, seed, dt, diffuse, policy="on_t_sample", susys=None):
+    from strengths import simulate, UnitValue, UnitArray, UnitsSystem
+    kw = {}
+    if susys:
+        # times stay what they were (given with their unit); only the units system the script hands to the engine changes
+        kw = {"units_system": UnitsSystem(space=susys[0], time=susys[1], quantity=susys[2] if len(susys) > 2 else "molecule")}
+        dt = UnitValue(dt, "s")
+        ts = UnitArray(list(ts), "s")
     n = system.space.size()
     why = unsafe_graph(system, list(range(n)))
     if why:
         return False, {"why": "identity coarse-graining is not a usable graph: " + why}
     try:
-        plain = simulate(system, t_sample=ts, engine=common.load_engine(option), time_step=dt, rng_seed=seed, sampling_policy=policy)
+        plain = simulate(system, t_sample=ts, engine=common.load_engine(option), time_step=dt, rng_seed=seed, sampling_policy=policy, **kw)
         cgd = simulate(system, t_sample=ts, engine=common.load_engine(option), time_step=dt, rng_seed=seed, sampling_policy=policy,
-                       cgmap=list(range(n)))
+                       cgmap=list(range(n)), **kw)
     except Exception as e:  # noqa
         return False, {"why": "raised %r" % (e,)}
     a = [float(v) for v in np.asarray(plain.data.value).ravel()]
@@ -599,6 +652,10 @@ def identity_compare(system, option, ts, seed, dt, diffuse, policy="on_t_sample"
     same_t = [float(x) for x in plain.t.value] == [float(x) for x in cgd.t.value]
     if option != "euler" and diffuse:      # recorded times are event times of the stochastic run
         same_t = len(plain.t.value) == len(cgd.t.value)
+    if susys and len(susys) > 2 and (plain.data.units.sys.quantity != susys[2] or cgd.data.units.sys.quantity != susys[2]):
+        det["why"] = "the script's quantity unit is %s, the plain trajectory is in %s and the identity-map one in %s" % (
+            susys[2], plain.data.units, cgd.data.units)
+        return False, det
     if len(a) != len(b) or str(plain.data.units) != str(cgd.data.units) or not same_t:
         det["why"] = "shape / units / times differ: %d samples at %s versus %d samples at %s" % (
             len(plain.t.value), det["plain_times"][-3:], len(cgd.t.value), det["cgmap_identity_times"][-3:])
@@ -621,10 +678,12 @@ def identity_compare(system, option, ts, seed, dt, diffuse, policy="on_t_sample"
     return True, det
 
 
-def simulate_cg_check(c, ts, dt):
+def simulate_cg_check(c, ts, dt, squnit=None):
     """simulate(..., cgmap=map) on the Euler engine versus the fine grid; returns (status, detail):
-    status in ok | skipped | unusable | raises | bad"""
-    from strengths import simulate
+    status in ok | skipped | unusable | raises | bad.  `squnit` = quantity unit of the script's units system: the trajectory is then
+    expressed in that unit while the system's state keeps its own; everything is compared through the units the results carry."""
+    from strengths import simulate, UnitsSystem
+    kw = {"units_system": UnitsSystem(quantity=squnit)} if squnit else {}
     system = build(c)
     n = len(c["envs"])
     im, ns = c["im"], c["ns"]
@@ -635,10 +694,18 @@ def simulate_cg_check(c, ts, dt):
             return "skipped", why
         return "unusable", why
     try:
-        out = simulate(system, t_sample=ts, engine=common.load_engine("euler"), time_step=dt, cgmap=list(im))
+        out = simulate(system, t_sample=ts, engine=common.load_engine("euler"), time_step=dt, cgmap=list(im), **kw)
     except Exception as e:  # noqa
         return "raises", repr(e)
-    vals = [float(v) for v in np.asarray(out.data.value).ravel()]
+    # the trajectory's numbers, re-expressed in the unit of the state through the units the trajectory says it has
+    ou = out.data.units
+    conv = si_factor((ou.sys.space, ou.sys.time, ou.sys.quantity), (ou.dim.space, ou.dim.time, ou.dim.quantity)) / si_qty(c.get("stsys", c["ssys"])[2])
+    if (ou.dim.space, ou.dim.time, ou.dim.quantity) != (0, 0, 1) or (squnit and ou.sys.quantity != squnit):
+        return "bad", {"why": "trajectory data carry units %s, the script's quantity unit is %s" % (ou, squnit or "the default"), "data": []}
+    try:
+        vals = [frac(float(v)) * conv for v in np.asarray(out.data.value).ravel()]
+    except ValueError as e:
+        return "bad", {"why": "non-finite value in the trajectory (%s)" % e, "data": []}
     ng = max(im) + 1
     members = [[i for i in range(n) if im[i] == g] for g in range(ng)]
     bad = None
@@ -656,19 +723,19 @@ def simulate_cg_check(c, ts, dt):
                     if kk == 0:
                         e0 = sum(frac(c["state"][s * n + i]) for i in members[g]) / len(members[g])
                         if not close(row[members[g][0]], e0, mag=1, rel=1e-9):
-                            bad = bad or "sample 0 species %d group %d is %r, initial group total / size = %s" % (s, g, row[members[g][0]], fstr(e0))
-                if any(row[i] != 0.0 for i in range(n) if im[i] == -1):
+                            bad = bad or "sample 0 species %d group %d is %s, initial group total / size = %s (unit of the state)" % (s, g, fstr(row[members[g][0]]), fstr(e0))
+                if any(row[i] != 0 for i in range(n) if im[i] == -1):
                     bad = bad or "sample %d species %d: dropped cell non-zero" % (kk, s)
                 # a group chemostated for this species (some member flagged) keeps its initial value at every sample
                 row0 = vals[s * n:(s + 1) * n]
                 for g in range(ng):
                     if any(c["chem"][s * n + i] for i in members[g]) and not close(row[members[g][0]], frac(row0[members[g][0]]), mag=1, rel=1e-9):
-                        bad = bad or "sample %d species %d group %d is chemostated but changed from %r to %r" % (kk, s, g, row0[members[g][0]], row[members[g][0]])
+                        bad = bad or "sample %d species %d group %d is chemostated but changed from %s to %s" % (kk, s, g, fstr(row0[members[g][0]]), fstr(row[members[g][0]]))
                     # and an un-chemostated group exchanging matter is not frozen: checked through the species total below
                 if free[s] and not close(sum(frac(v) for v in row), tot0, mag=max(tot0, 1), rel=1e-9):
                     bad = bad or "sample %d species %d: total %s, retained cells initially hold %s" % (kk, s, fstr(sum(frac(v) for v in row)), fstr(tot0))
     if bad:
-        return "bad", {"why": bad, "data": vals[:24]}
+        return "bad", {"why": bad, "data": [fstr(v) for v in vals[:24]]}
     return "ok", None
 
 
@@ -677,10 +744,14 @@ def cg_structure_runs(ctx, rng, count):
     sample constant within groups, dropped cells zero, species totals over retained cells preserved when nothing reacts"""
     for k in range(count):
         c = gen_case(rng)
-        c["gsys"] = c["vsys"] = c["ssys"] = c["stsys"] = ("µm", "s", "molecule")
+        c["gsys"] = c["vsys"] = c["ssys"] = ("µm", "s", "molecule")
+        # the state in its own quantity unit, the script (hence the trajectory) in another one
+        c["stsys"] = ("µm", "s", rng.choice(["molecule", "molecule", "mol", "nmol", "µmol"]))
+        squnit = rng.choice([None, "nmol", "mol", "µmol", "pmol", "molecule"])
         ts = [0.0, 0.25, 0.5]
-        case = {"sys": case_json(c), "simulate_cg": {"t_sample": ts, "time_step": 1 / 64}}
-        st, det = simulate_cg_check(c, ts, 1 / 64)
+        case = {"sys": case_json(c), "simulate_cg": {"t_sample": ts, "time_step": 1 / 64, "script_quantity_unit": squnit}}
+        ctx.count("simulate_cgmap_units_state_%s_script_%s" % (c["stsys"][2], squnit or "default"))
+        st, det = simulate_cg_check(c, ts, 1 / 64, squnit)
         if st == "skipped":
             ctx.count("simulate_cgmap_skipped_zero_distance")
             continue
@@ -722,6 +793,8 @@ def run(ctx):
                 ssys=("µm", "s", "molecule"), stsys=("µm", "s", "molecule"), ns=1, kind="corpus", state=[4.0, 6.0, 4.0, 6.0], chem=[0, 0, 0, 0], periodic=None)
     for im in ([-1, -1, 0, 1], [-1, 0, -1, 0], [0, -1, 1, -1], [-1, 1, 0, -1], [0, 1, 2, 3]):
         cases.insert(0, dict(base, im=im))
+    for _ in range(ctx.n(2, 12)):
+        cases.insert(rng.randrange(len(cases)), big_map_case(rng))
     batch = 400
     for b0 in range(0, len(cases), batch):
         chunk = cases[b0:b0 + batch]
@@ -873,7 +946,7 @@ def replay(ctx, rec):
         if d.get("chem"):
             system.chemostats = list(d["chem"])
         ok, det = identity_compare(system, d["option"], d["t_sample"], d["seed"], d["time_step"], d.get("diffuse", True),
-                                   d.get("policy", "on_t_sample"))
+                                   d.get("policy", "on_t_sample"), d.get("script_units"))
         return ok, det
     c = dict(case["sys"])
     c["h"] = Fraction(c["h"])
@@ -917,7 +990,7 @@ def replay(ctx, rec):
         import random
         uncg_replay(v, c, cg, case["uncg"])
     if "simulate_cg" in case:
-        st, det = simulate_cg_check(c, case["simulate_cg"]["t_sample"], case["simulate_cg"]["time_step"])
+        st, det = simulate_cg_check(c, case["simulate_cg"]["t_sample"], case["simulate_cg"]["time_step"], case["simulate_cg"].get("script_quantity_unit"))
         out.update(simulate_cgmap=st, detail=det)
         return st in ("ok", "skipped"), out
     out["failures"] = v.v
@@ -931,7 +1004,7 @@ def uncg_replay(v, c, cgsys, u):
     n, ns, im = len(c["envs"]), c["ns"], c["im"]
     ng = max(im) + 1
     N, data = u["N"], u["data"]
-    traj = RDTrajectory(data=UnitArray(data, cgsys.state.units), t_sample=UnitArray([float(k) for k in range(N)], "s"), system=cgsys)
+    traj = RDTrajectory(data=UnitArray(data, u.get("unit") or cgsys.state.units), t_sample=UnitArray([float(k) for k in range(N)], "s"), system=cgsys)
     before = np.array(traj.data.value, dtype=float).tobytes()
     out = uncoarsegrain_trajectory(traj, build(c), im)
     vals = [float(x) for x in np.asarray(out.data.value).ravel()]
